@@ -832,6 +832,7 @@ struct StressStats {
     polls: u64,
     at: [u64; 14],
     woken_by_runner_side: u64,
+    max_polls_in_round: u64,
 }
 
 fn at_name(i: usize) -> &'static str {
@@ -899,7 +900,7 @@ fn stress_epoch(epoch_seed: u64, tiny: bool, st: &mut StressStats, rep: &mut Rep
         };
         let per_thread: Vec<(u64, usize, u32)> = (0..nthreads)
             .map(|t| {
-                let cls = [0u32, 24, 400, 6000][rng.below(4)];
+                let cls = [0u32, 8, 64, 400][rng.below(4)];
                 (rng.fork(100 + t as u64).next_u64(), 1 + rng.below(wmax), cls)
             })
             .collect();
@@ -907,7 +908,11 @@ fn stress_epoch(epoch_seed: u64, tiny: bool, st: &mut StressStats, rep: &mut Rep
         // A fresh Dfir is raced from its very first poll in the first round; afterwards the runner is
         // idle (waker registered) when the round starts.
         let total_wakes: usize = per_thread.iter().map(|p| p.1).sum();
-        let poll_cap = ew.polls.load(Relaxed) + 64 + 40 * total_wakes as u64;
+        // Hang guard only. The number of polls is *not* bounded by the number of wakes: while a waker
+        // thread sits (possibly descheduled) inside `AtomicWaker::wake`, `register` answers by waking the
+        // caller, so a correct runner busy-polls until that thread moves on.
+        let polls_at_start = ew.polls.load(Relaxed);
+        let poll_cap = polls_at_start + 50_000_000 + 40 * total_wakes as u64;
         let go = AtomicBool::new(false);
         let done = AtomicUsize::new(0);
         let main_thread = std::thread::current();
@@ -952,15 +957,13 @@ fn stress_epoch(epoch_seed: u64, tiny: bool, st: &mut StressStats, rep: &mut Rep
                 if must_poll {
                     polled_once = true;
                     if ew.polls.load(Relaxed) > poll_cap {
-                        eprintln!("DEBUG cap: polls {} cap {} total_wakes {}", ew.polls.load(Relaxed), poll_cap, total_wakes);
                         capped = true;
                         break;
                     }
                     sh.cur.store(L_POLL_ENTRY, Relaxed);
                     match poll_runner(&ew) {
                         Some(Poll::Pending) => {}
-                        other => {
-                            eprintln!("DEBUG unexpected poll result {:?}", other);
+                        _ => {
                             capped = true;
                             break;
                         }
@@ -992,6 +995,7 @@ fn stress_epoch(epoch_seed: u64, tiny: bool, st: &mut StressStats, rep: &mut Rep
         });
 
         st.rounds += 1;
+        st.max_polls_in_round = st.max_polls_in_round.max(ew.polls.load(Relaxed) - polls_at_start);
         if capped {
             rep.count("stress:poll_cap_or_unexpected_ready");
             rep.require(false, "stress: poll cap reached / run() returned");
@@ -1037,7 +1041,7 @@ fn stress_epoch(epoch_seed: u64, tiny: bool, st: &mut StressStats, rep: &mut Rep
 }
 
 fn stress(args: &Args, rep: &mut Reporter) -> StressStats {
-    let mut st = StressStats { wakes: 0, rounds: 0, epochs: 0, ticks: 0, polls: 0, at: [0; 14], woken_by_runner_side: 0 };
+    let mut st = StressStats { wakes: 0, rounds: 0, epochs: 0, ticks: 0, polls: 0, at: [0; 14], woken_by_runner_side: 0, max_polls_in_round: 0 };
     let budget = args.budget(20_000, 2_000_000, 10) as u64;
     let tiny = args.tier == Tier::Miri;
     let mut rng = args.rng().fork(0x57E55 + args.shard.0 as u64);
@@ -1091,7 +1095,7 @@ fn replay(rep: &mut Reporter, case: &Value) {
             // thread schedules are not reproducible: repeat the epoch
             let seed: u64 = case["epoch_seed"].as_str().and_then(|s| s.parse().ok()).expect("epoch_seed");
             let tiny = case["tiny"].as_bool().unwrap_or(false);
-            let mut st = StressStats { wakes: 0, rounds: 0, epochs: 0, ticks: 0, polls: 0, at: [0; 14], woken_by_runner_side: 0 };
+            let mut st = StressStats { wakes: 0, rounds: 0, epochs: 0, ticks: 0, polls: 0, at: [0; 14], woken_by_runner_side: 0, max_polls_in_round: 0 };
             let reps = if cfg!(miri) { 1 } else { 20_000 };
             for _ in 0..reps {
                 let vs = stress_epoch(seed, tiny, &mut st, rep);
@@ -1158,6 +1162,7 @@ fn main() {
         json!({"wakes": stress.wakes, "rounds": stress.rounds, "fresh_dataflows": stress.epochs,
                "ticks_observed": stress.ticks, "polls": stress.polls,
                "executor_notifications": stress.woken_by_runner_side,
+               "max_polls_in_one_round": stress.max_polls_in_round,
                "runner_last_seen_at_when_wake_fired": stress_at}),
     );
 
